@@ -169,7 +169,10 @@ func (b *Batch) Run() int {
 			continue
 		}
 		c, o := f.c, f.o
-		if !f.group {
+		if !f.group && f.class == "deadlock" {
+			// Already confirmed by the stall protocol (which re-ran the case);
+			// every further run costs a watchdog period, so it is reported as found.
+		} else if !f.group {
 			// Single-run violation: confirm in a fresh process, then minimise.
 			o2 := RunCase(c, RunOpts{})
 			if b.Judge(c, o2) != f.class {
@@ -275,10 +278,72 @@ func (b *Batch) minimise(c *world.Case, class string) (*world.Case, *world.Outco
 	return cur, o
 }
 
-// stallProtocol implements DESIGN §2.6: a real-time stall is re-run with
-// every virtual delay disabled; if it stalls again the system deadlocked on
-// its own.
+// lockHolders are functions of bigslice known to call user code (which may
+// sleep on the simulated clock) while holding a mutex. A goroutine sleeping
+// below one of them can stall the simulated clock without any defect in
+// bigslice: under synctest, goroutines blocked on a sync.Mutex are not durably
+// blocked, so the clock does not advance and the sleeper never wakes.
+var lockHolders = []string{"exec.(*worker).CommitCombiner"}
+
+// stallAnalysis inspects the goroutine dump taken at a real-time stall. It
+// returns the innermost bigslice frame of a goroutine blocked on a mutex
+// ("" if there is none) and whether some sleeping goroutine may hold a lock.
+func stallAnalysis(dump string) (blockedAt string, sleeperMayHoldLock bool) {
+	for _, g := range strings.Split(dump, "\n\n") {
+		head := g
+		if i := strings.Index(g, "\n"); i >= 0 {
+			head = g[:i]
+		}
+		if !strings.HasPrefix(head, "goroutine ") {
+			continue
+		}
+		switch {
+		case strings.Contains(head, "[sync.Mutex.Lock") || strings.Contains(head, "[sync.RWMutex."):
+			if blockedAt == "" {
+				for _, l := range strings.Split(g, "\n") {
+					if strings.HasPrefix(l, "github.com/grailbio/bigslice") {
+						if i := strings.Index(l, "("); i > 0 {
+							l = l[:strings.LastIndex(l, "(")]
+						}
+						blockedAt = l
+						break
+					}
+				}
+			}
+		case strings.Contains(head, "[sleep"):
+			for _, f := range lockHolders {
+				if strings.Contains(g, f) {
+					sleeperMayHoldLock = true
+				}
+			}
+		}
+	}
+	return
+}
+
+// stallProtocol implements DESIGN §2.6. A real-time stall means that some
+// goroutine in the bubble is blocked in a way the simulated clock cannot wait
+// for (a sync.Mutex). Two ways to call it a deadlock of the system itself:
+// (1) the identical case stalls again, a goroutine is blocked on a mutex inside
+// bigslice, and no sleeping goroutine can be the holder (the lock was leaked or
+// its holder is blocked for good); (2) the case also stalls with every virtual
+// delay disabled. Anything else is an artefact of the simulation (infra).
 func (b *Batch) stallProtocol(c *world.Case, o *world.Outcome) *world.Outcome {
+	return classifyStall(c, o)
+}
+
+func classifyStall(c *world.Case, o *world.Outcome) *world.Outcome {
+	if at, holder := stallAnalysis(o.Stack); at != "" && !holder {
+		o1 := RunCase(cloneCase(c), RunOpts{})
+		if o1.Verdict == "stall" {
+			if at1, holder1 := stallAnalysis(o1.Stack); at1 != "" && !holder1 {
+				o1.Verdict = "violation"
+				o1.Class = "deadlock"
+				o1.Detail = "real-time stall, twice at the same place: a goroutine is blocked for good on a mutex in " + at1 + " and no goroutine sleeping on the simulated clock can be its holder"
+				return o1
+			}
+		}
+	}
 	c2 := cloneCase(c)
 	c2.Config.DelayProfile = "none"
 	c2.Config.UserDelays = false
